@@ -97,6 +97,12 @@ func (e *Engine) UpdateIsearch() {
 		return
 	}
 
+	// The keymap might say we are searching while no search
+	// has been set up (no minibuffer): nothing to update.
+	if e.isearchBuf == nil {
+		return
+	}
+
 	// Update helpers depending on the search/minibuffer mode.
 	if e.keymap.Local() == keymap.Isearch {
 		e.updateIncrementalSearch()
